@@ -92,3 +92,21 @@ Definition forget_ts (c : client) : client := restart c.
 
 (* the group-visible part of the MLS state: what C05 protects *)
 Definition gstate (c : client) := (k_cur (kc c), k_epoch (kc c), k_data (kc c)).
+
+(* ---------------------------------------------------------------- appended for C01 (chains of forks, epoch-causal delivery) *)
+(* a run of successive forks: round i offers the fork set K_i as the delivery list ds_i (any order, any repetitions) to the
+   client left by round i-1 *)
+Fixpoint run_rounds (c : client) (rounds : list (list event * list event)) : client :=
+  match rounds with [] => c | (_, ds) :: r => run_rounds (deliver_all c ds) r end.
+Inductive rounds_ok : client -> list (list event * list event) -> Prop :=
+| ro_nil : forall c, rounds_ok c []
+| ro_cons : forall c K ds r, fork_set c K -> (forall e, In e ds -> In e K) -> (forall e, In e K -> In e ds) ->
+            rounds_ok (deliver_all c ds) r -> rounds_ok c ((K, ds) :: r).
+
+(* no exporter secret is stored for an epoch the client has not reached (a rollback restores the stored secrets together with
+   the MLS state, so this holds in every state reached from init_client / join_client by deliveries) *)
+Definition no_future_secrets (k : core) : Prop :=
+  forall ep x, aget N.eqb ep (k_secrets k) = Some x -> ep <= k_epoch k.
+(* fork_ready alone is not preserved by resolving a fork (a stale secret filed under the NEXT epoch breaks its last clause -
+   EngineProofs6.fork_ready_not_preserved); this is *)
+Definition fork_ready_inv (c : client) : Prop := fork_ready c /\ no_future_secrets (kc c).
